@@ -210,7 +210,11 @@ func build64(r *Rng, m *ISet, form string) (*BM64, string) {
 			}
 		}
 	case "addmany":
-		addMany(b)
+		if m.Card() <= 64 && r.Chance(0.5) {
+			b = roaring64.BitmapOf(m.Values()...)
+		} else {
+			addMany(b)
+		}
 	case "range":
 		for _, v := range m.iv {
 			addRange(b, v.Lo, v.Hi)
@@ -404,7 +408,13 @@ func mutateStep64(c *Ctx, bm *BM64, full bool) string {
 	case "Flip":
 		s, e := genRange64(r, m, full)
 		c.Step("Flip(%d,%d)", s, e)
-		c.Guard(sig, func() { b.Flip(s, e) })
+		c.Guard(sig, func() {
+			if e <= 1<<62 && r.Chance(0.3) {
+				b.FlipInt(int(s), int(e))
+			} else {
+				b.Flip(s, e)
+			}
+		})
 		m.FlipRange(s, e-1)
 	case "Clear":
 		c.Step("Clear()")
